@@ -36,6 +36,7 @@ def dispatch (op : String) (args : List String) (impl : String) : Verdict :=
   | "fragenc" => opFragEnc args impl
   | "faults" => opFaults args impl
   | "store" => opStore args impl
+  | "flipz" => opFlipZ args impl
   | "decrt" => opDecrT args impl
   | "misc" => opMisc args impl
   | _ => bad s!"unknown op {op}"
